@@ -19,7 +19,10 @@ fn five<T: DeserializeOwned + std::fmt::Display + Ord>(lit: &str) -> String {
     let key = g(|| match serde_json::from_str::<BTreeMap<T, ()>>(&doc) { Ok(m) => m.keys().next().map(|k| format!("OK{}", k)).unwrap_or("EMPTY".into()), Err(_) => "ERR".into() });
     let kv = g(|| { let mut m = serde_json::Map::new(); m.insert(lit.to_string(), Value::Null);
         match serde_json::from_value::<BTreeMap<T, ()>>(Value::Object(m)) { Ok(m) => m.keys().next().map(|k| format!("OK{}", k)).unwrap_or("EMPTY".into()), Err(_) => "ERR".into() } });
-    format!("{}|{}|{}|{}|{}", text, v1, v2, key, kv)
+    // the value after an escaped string and a key, read from an io::Read (scratch buffer reuse)
+    let doc2 = format!("[\"a\\n\\u00e9\",{{\"k\":{}}}]", lit);
+    let seq = g(|| match serde_json::from_reader::<_, (String, BTreeMap<String, T>)>(Chunked::new(doc2.as_bytes(), vec![3])) { Ok(x) => x.1.values().next().map(|v| format!("OK{}", v)).unwrap_or("EMPTY".into()), Err(_) => "ERR".into() });
+    format!("{}|{}|{}|{}|{}|{}", text, v1, v2, key, kv, seq)
 }
 
 fn emit_int(sink: &mut Sink, cfg: &str, lit: &str, tag: &str) {
@@ -80,6 +83,26 @@ pub fn literals(r: &mut Rng, thorough: bool) -> Vec<String> {
         v.push(s);
     }
     v
+}
+
+/// every string of length <= 5 (thorough 6) over the number alphabet, as candidate for Number::from_str
+pub fn exhaustive_number_alphabet(sink: &mut Sink, thorough: bool) {
+    let cfg = cfg_tag();
+    let alpha: &[u8] = b"019-+.eE";
+    for len in 0..=(if thorough { 6 } else { 5 }) {
+        let total = alpha.len().pow(len as u32);
+        for mut i in 0..total {
+            let mut s = Vec::with_capacity(len);
+            for _ in 0..len { s.push(alpha[i % alpha.len()]); i /= alpha.len(); }
+            let lit = String::from_utf8(s).unwrap();
+            let o = g(|| match lit.parse::<Number>() {
+                Err(_) => "ERR".into(),
+                Ok(n) => format!("{}|{}|{}|{}|{}|{}|{}|{}", opt(n.as_i64()), opt(n.as_u64()), opt(n.as_i128()), opt(n.as_u128()), n.is_i64() as u8, n.is_u64() as u8, n.is_f64() as u8,
+                                 n.as_f64().map(|f| format!("{:016x}", f.to_bits())).unwrap_or("N".into())) });
+            let class = if o == "ERR" { "rejected" } else { "accepted" };
+            sink.case("acc", &[&cfg, &hexf(lit.as_bytes())], &o, &format!("numalpha{}:{}", len, class), len > 1);
+        }
+    }
 }
 
 pub fn run(sink: &mut Sink, thorough: bool, seed: u64) {
